@@ -79,6 +79,20 @@ extern "C" fn on_fatal_signal(sig: libc::c_int) {
     }
 }
 
+/// A runaway library (e.g. a loop driven by a garbage length after a swallowed error) must end in an
+/// allocation failure -> abort -> crash report with a replay, not in the kernel's OOM killer taking
+/// the worker (which the driver can only report as an environment error).
+fn limit_address_space() {
+    unsafe {
+        let mut cur: libc::rlimit = std::mem::zeroed();
+        if libc::getrlimit(libc::RLIMIT_AS, &mut cur) == 0 {
+            let want: libc::rlim_t = 12 << 30;
+            cur.rlim_cur = if cur.rlim_max == libc::RLIM_INFINITY { want } else { want.min(cur.rlim_max) };
+            libc::setrlimit(libc::RLIMIT_AS, &cur);
+        }
+    }
+}
+
 fn install_signal_handlers() {
     unsafe {
         // alternate stack so that a stack overflow is reported too
@@ -132,6 +146,7 @@ fn main() {
     let scratch_default = std::env::temp_dir().join(format!("epsim-{}", std::process::id()));
     match args[1].as_str() {
         "run" => {
+            limit_address_space();
             let prop = find_prop(arg(&args, "--prop").unwrap_or_else(|| die("--prop")));
             let seed: u64 = arg(&args, "--seed").and_then(|s| s.parse().ok()).unwrap_or(1);
             let tier = tier_of(arg(&args, "--tier").unwrap_or("quick"));
@@ -179,6 +194,7 @@ fn main() {
             println!("DONE worker={} evaluations={}", w, ctx.evaluations);
         }
         "replay" | "shrink" => {
+            limit_address_space();
             let path = args.get(2).unwrap_or_else(|| die("file"));
             let txt = std::fs::read_to_string(path).unwrap_or_else(|e| die(&format!("{}: {}", path, e)));
             let j: serde_json::Value = serde_json::from_str(&txt).unwrap_or_else(|e| die(&format!("{}: {}", path, e)));
